@@ -104,7 +104,11 @@ impl Out {
     pub fn oracle_fail(&mut self, signature: &str, detail: String) {
         self.oracle_evals += 1;
         self.failure_count += 1;
-        if self.failures.len() < 25 {
+        // keep the first 5 failures of every distinct signature (so a flood of one known class
+        // can never hide a failure of another kind), at most 60 signatures
+        let same = self.failures.iter().filter(|f| f.signature == signature).count();
+        let sigs = self.failures.iter().map(|f| f.signature.as_str()).collect::<std::collections::BTreeSet<_>>().len();
+        if same < 5 && (same > 0 || sigs < 60) {
             self.failures.push(OracleFailure { signature: signature.to_string(), detail, case: self.evaluations });
         }
     }
